@@ -93,10 +93,28 @@ func (r *rwRT) ruleGensym() {
 			why = "counter is not advanced by exactly one per call: " + stored.String()
 			if good {
 				ret := o.St.Render(o.Ret[0])
-				good = strings.Contains(ret, "Itoa") && strings.Contains(ret, `"it"`)
+				// the name is the prefix followed by the decimal rendering of the new counter value, whichever
+				// strconv / fmt function renders it (their calls are events when the result is opaque)
+				text := ret
+				for _, e := range o.St.Events {
+					if e.Kind == "call" && e.Fn != nil && (fnPkgPath(e.Fn) == "strconv" || fnPkgPath(e.Fn) == "fmt") {
+						text += " " + e.Fn.Name() + "("
+						for _, a := range e.Args {
+							text += o.St.Render(a) + ","
+						}
+						text += ")"
+					}
+				}
+				rendered := false
+				for _, f := range []string{"Itoa", "FormatInt", "AppendInt", "FormatUint", "AppendUint", "Sprint", "Sprintf"} {
+					if strings.Contains(text, f) {
+						rendered = true
+					}
+				}
+				good = rendered && strings.Contains(text, `"it"`)
 				why = "the generated name is not prefix+counter: " + ret
 				// the name must use the *new* value
-				if good && !strings.Contains(ret, "+(") {
+				if good && !strings.Contains(text, "+(") {
 					good, why = false, "the name is built from the old counter value"
 				}
 			}
